@@ -111,8 +111,11 @@ def gen_bundle(rng, bundles, depth, maxdepth, fan, counter):
             amb[0] = f"{sname}_{inner}"
             sigs.append(amb)
     bundles[name] = {"sigs": sigs, "subs": subs, "roles": list(ROLES)}
-    if rng.random() < 0.3:
+    xr = rng.random()
+    if xr < 0.3:
         bundles[name]["roles_via"] = "unnamed"  # class-style definition with roles from h.Roles(n)
+    elif xr < 0.45:
+        bundles[name]["roles_via"] = "unnamed-procedural"  # procedural definition, roles from h.Roles(n) in a ready-made RoleSet
     x = rng.random()
     if x < 0.3:
         bundles[name]["leaves_via"] = "mult" if x < 0.15 else "copy"  # leaves made as `n * h.Signal(...)` / by copy()
